@@ -219,14 +219,15 @@ def flush_discipline(facts, res, fns):
 
 # ---------------------------------------------------------------------------------------------- C07.1 header = content
 def field_of_accessor(facts, cls, accessor):
+    """the header field an accessor returns: the last member name of its single return expression"""
     ms = [m for m in facts.methods_of(cls) if m["name"] == accessor and not m.get("inst") and tbf.body(m) is not None]
     fs = set()
     for m in ms:
-        r = [x for x in walk(tbf.body(m)) if x.get("k") == "ReturnStmt"]
+        r = [x for x in walk(tbf.body(m)) if x.get("k") == "ReturnStmt" and kids(x)]
         for x in r:
-            mm = re.search(r"getViewerForBlock(?:Const)?<0>\(\)\.getItem\(\)\.(\w+)$", facts.ntext(kids(x)[0]))
-            if mm:
-                fs.add(mm.group(1))
+            e = strip(kids(x)[0])
+            if e.get("k") in ("MemberExpr", "CXXDependentScopeMemberExpr") and e.get("name"):
+                fs.add(e["name"])
     if len(fs) != 1:
         raise AnalysisBroken("%s::%s: header field not recognised" % (cls, accessor))
     return next(iter(fs))
@@ -301,9 +302,10 @@ def header_content(facts, res):
     for x in walk(fm.body):
         if x.get("k") == "BinaryOperator" and x.get("op") == "=":
             l = strip(kids(x)[0])
-            if l.get("k") in ("MemberExpr", "CXXDependentScopeMemberExpr") and l.get("name") in (fstart, fend, fnb, fnp) and "header" in facts.ntext(l) or \
-               (l.get("k") in ("MemberExpr", "CXXDependentScopeMemberExpr") and l.get("name") in (fstart, fend, fnb, fnp) and strip(kids(l)[0]).get("k") == "DeclRefExpr"):
-                assigns.setdefault(l["name"], []).append((x, fm.origin(kids(x)[1]).replace(" ", "")))
+            if l.get("k") in ("MemberExpr", "CXXDependentScopeMemberExpr") and l.get("name") in (fstart, fend, fnb, fnp) and kids(l):
+                bo = fm.origin(kids(l)[0])
+                if bo.endswith(".getItem()"):      # the single item of the header block (leaf records are getItem(k))
+                    assigns.setdefault(l["name"], []).append((x, fm.origin(kids(x)[1]).replace(" ", "")))
     want = {fstart: (r"^param0\.getSpacialIndexForLeaf\(0\)$", "the index of the group's first leaf"),
             fend: (r"^param0\.getSpacialIndexForLeaf\(\(?param0\.getNbLeaves\(\)-1\)?\)$", "the index of the group's last leaf"),
             fnb: (r"^param0\.getNbLeaves\(\)$", "the group's number of leaves"),
@@ -346,7 +348,12 @@ def header_content(facts, res):
         ("assign %s.%s = 0" % (rec, foff), "the first leaf's offset is 0"),
     ]
     unexpected = [k for k in keys if k not in [e for e, _ in exp] and not re.search(r"\.boxCoord = ", k)]
+    ctr_starts_at_0 = ("%s:=0;" % ctr) in sk or sk.startswith("%s:=0" % ctr)
     for e, what in exp:
+        if e not in A and e.endswith("getSpacialIndexForLeaf(0)") and ctr_starts_at_0 and exp[1][0] in A:
+            # the first record is initialised through the counter while it is still 0 (same statement as for the later leaves)
+            res.instance(R, "%s leaf records: %s" % (cls, what), facts.loc(A[exp[1][0]]), "through the counter, which starts at 0")
+            continue
         res.instance(R, "%s leaf records: %s" % (cls, what), facts.loc(A[e]) if e in A else facts.loc(fn), e[-90:] if e in A else "NOT FOUND")
         if e in A:
             continue
@@ -400,7 +407,7 @@ def closure_and_bound(facts, res, fns):
             if c.get("k") in ("CallExpr", "CXXMemberCallExpr") and tbf.callee_name(c) in ("push_back", "emplace_back"):
                 b = strip(tbf.call_base(c)) if tbf.call_base(c) is not None else None
                 a = tbf.call_args(c)
-                if b is not None and b.get("k") == "DeclRefExpr" and b.get("dk") == "Var" and len(a) == 1 and "getParentIndex" in facts.ntext(a[0]):
+                if b is not None and b.get("k") == "DeclRefExpr" and b.get("dk") == "Var" and len(a) == 1 and "getParentIndex" in fm.origin(a[0]):
                     pushes.append(c)
         if len(pushes) != 2:
             raise AnalysisBroken("%s: %d parent-index appends in the level loop (one per grouping mode; 2 confirmed by reading)" % (fn["qname"], len(pushes)))
@@ -425,20 +432,21 @@ def closure_and_bound(facts, res, fns):
             if len(cell_loops) != 1 or len(grp_loops) != 1:
                 raise AnalysisBroken("%s: loops around the append at line %d not recognised (%d counted, %d range)" % (fn["qname"], c["l"][1], len(cell_loops), len(grp_loops)))
             cl = cell_loops[0]
-            cond = facts.ntext(cl["c"][1]) if cl["c"][1] is not None else ""
-            idxv = facts.ntext(tbf.call_args(c)[0])
-            mi = re.search(r"getCellSpacialIndex\((\w+)\)", idxv)
-            if not mi or not re.match(r"^%s<\w+\.getNbCells\(\)$" % re.escape(mi.group(1)), cond):
-                res.violation(R4, tbf.rel(facts.path_of(cl)), fn["qname"], "cell-range@%d" % cl["l"][1], cl["l"][1], "the cells of a lower group are visited while `%s`, not up to its number of cells: some children contribute no parent" % cond)
-            inc = facts.ntext(cl["c"][2]) if cl["c"][2] is not None else ""
-            if mi and inc not in ("++" + mi.group(1), mi.group(1) + "++", mi.group(1) + "+=1"):
-                res.violation(R4, tbf.rel(facts.path_of(cl)), fn["qname"], "cell-step@%d" % cl["l"][1], cl["l"][1], "the cell loop advances by `%s`" % inc)
+            grp = m.group(1)
+            idx = m.group(2)
+            co = fm.cond_origin(cl["c"][1]) if cl["c"][1] is not None else ""
+            if co != "(%s<each(%s).getNbCells())" % (idx, grp):
+                res.violation(R4, tbf.rel(facts.path_of(cl)), fn["qname"], "cell-range@%d" % cl["l"][1], cl["l"][1], "the cells of a lower group are visited while `%s`, not while the visited cell's position is below that group's number of cells: some children contribute no parent" % co[:120])
+            inc = strip(cl["c"][2]) if cl["c"][2] is not None else None
+            inc_ok = inc is not None and ((inc.get("k") == "UnaryOperator" and inc.get("op") == "++") or (inc.get("k") == "CompoundAssignOperator" and inc.get("op") == "+=" and fm.origin(kids(inc)[1]) == "1"))
+            if not inc_ok:
+                res.violation(R4, tbf.rel(facts.path_of(cl)), fn["qname"], "cell-step@%d" % cl["l"][1], cl["l"][1], "the cell loop does not advance by one (`%s`)" % (facts.ntext(inc) if inc else ""))
             init = cl["c"][0]
             if init is not None and kids(init):
                 iv = [v for v in kids(init) if v.get("k") == "VarDecl"]
-                if iv and kids(iv[0]) and facts.ntext(kids(iv[0])[0]) != "0":
-                    res.violation(R4, tbf.rel(facts.path_of(cl)), fn["qname"], "cell-start@%d" % cl["l"][1], cl["l"][1], "the cell loop starts at `%s`, not 0" % facts.ntext(kids(iv[0])[0]))
-            # de-duplication guard: the nearest enclosing if compares the last appended value with the value appended
+                if iv and kids(iv[0]) and fm.origin(kids(iv[0])[0]) != "0":
+                    res.violation(R4, tbf.rel(facts.path_of(cl)), fn["qname"], "cell-start@%d" % cl["l"][1], cl["l"][1], "the cell loop starts at `%s`, not 0" % fm.origin(kids(iv[0])[0]))
+            # de-duplication guard: the nearest enclosing if (inside the cell loop) compares the last appended value with the value appended
             g = c.get("_p")
             while g is not None and g.get("k") != "IfStmt":
                 g = g.get("_p")
@@ -446,27 +454,29 @@ def closure_and_bound(facts, res, fns):
                 res.violation(R4, tbf.rel(facts.path_of(c)), fn["qname"], "dedupe@%d" % c["l"][1], c["l"][1], "the parent index is appended without comparing it with the one appended last: a parent with several children enters the level several times")
                 continue
             gc = g["c"][-3] if len(g["c"]) >= 3 else g["c"][0]
-            gt = facts.ntext(gc)
-            vt = facts.ntext(tbf.call_args(c)[0])
-            bufname = strip(tbf.call_base(c))["name"]
-            ok = False
-            m1 = re.match(r"^%s\.size\(\)==0\|\|%s\.back\(\)!=(.*)$" % (re.escape(bufname), re.escape(bufname)), gt) or re.match(r"^%s\.empty\(\)\|\|%s\.back\(\)!=(.*)$" % (re.escape(bufname), re.escape(bufname)), gt)
-            if m1:
-                ok = m1.group(1) == vt
-            else:
-                m2 = re.match(r"^(\w+)!=(.*)$", gt)
-                if m2 and m2.group(2) == vt:
+            gt = fm.cond_origin(gc)
+            B = fm.origin(tbf.call_base(c))
+            ok = gt in ("(%s.empty()||(%s.back()!=%s))" % (B, B, val), "(%s.empty()||(%s!=%s.back()))" % (B, val, B))
+            if not ok:
+                m2 = re.match(r"^\((mutable:\w+)!=(.*)\)$", gt)
+                prev = None
+                if m2 and m2.group(2) == val:
                     prev = m2.group(1)
-                    # prev must be set to the appended value in the same branch and start from a value that is no index
+                else:
+                    m3 = re.match(r"^\((.*)!=(mutable:\w+)\)$", gt)
+                    if m3 and m3.group(1) == val:
+                        prev = m3.group(2)
+                if prev is not None:
+                    pname = prev.split(":", 1)[1]
                     then = g["c"][-2] if len(g["c"]) >= 3 else g["c"][1]
-                    sets = re.findall(r"%s=([^;]*);" % re.escape(prev), facts.ntext(then))
-                    decl = [v for v in walk(body) if v.get("k") == "VarDecl" and v.get("name") == prev]
-                    init_ok = bool(decl) and kids(decl[0]) and facts.ntext(kids(decl[0])[0]) in ("-1",)
-                    ok = sets == [vt] and init_ok
+                    sets = [fm.origin(kids(x)[1]) for x in walk(then) if x.get("k") == "BinaryOperator" and x.get("op") == "=" and strip(kids(x)[0]).get("name") == pname and strip(kids(x)[0]).get("k") == "DeclRefExpr"]
+                    decl = [v for v in walk(body) if v.get("k") == "VarDecl" and v.get("name") == pname]
+                    init_ok = bool(decl) and kids(decl[0]) and fm.origin(kids(decl[0])[0]) in ("-1",)
+                    ok = sets == [val] and init_ok
             res.instance(R4, "%s dedupe@%d" % (fn["qname"], g["l"][1]), facts.loc(g), gt[:140])
             if not ok:
                 res.violation(R4, tbf.rel(facts.path_of(g)), fn["qname"], "dedupe@%d" % g["l"][1], g["l"][1],
-                              "the guard `%s` does not compare the value appended (`%s`) with the value appended last: parents are duplicated or dropped" % (gt[:100], vt[:80]))
+                              "the guard `%s` does not compare the value appended (`%s`) with the value appended last: parents are duplicated or dropped" % (gt[:100], val[:80]))
         # block-size bound: a flush under size(buffer) == this.nbElementsPerBlock next to the append of block mode
         thr = []
         for i in walk(lvl[0]):
@@ -637,9 +647,8 @@ def sorter_split(facts, res):
         res.violation(R3, tbf.rel(facts.path_of(calls["setNbCells"][0])), fn["qname"], "split-size", calls["setNbCells"][0]["l"][1], "group g holds `%s` leaves, not min((g+1) * block size, leaves) - g * block size: a group exceeds the block size or runs past the last leaf" % nb)
     # particle ranges: 0 for the first group, previous first + previous count otherwise
     fp = sorted(fm.origin(tbf.call_args(c)[0]).replace(" ", "") for c in calls["setFirstParticle"])
-    vec = base[:-len(".back()")] if base.endswith(".back()") else None
-    okp = vec is not None and fp[0] == "(%s[(loopvar-1)].%s+%s[(loopvar-1)].%s)" % (vec, fpfirst, vec, fpnb) and fp[1] == "0"
-    okp = okp or (vec is not None and fp[0] == "(%s[(loopvar-1)].%s+%s[(loopvar-1)].%s)" % (vec, fpnb, vec, fpfirst) and fp[1] == "0")
+    rx1 = r"^\((.+)\[\(loopvar-1\)\]\.%s\+\1\[\(loopvar-1\)\]\.%s\)$"
+    okp = len(fp) == 2 and fp[1] == "0" and (re.match(rx1 % (re.escape(fpfirst), re.escape(fpnb)), fp[0]) or re.match(rx1 % (re.escape(fpnb), re.escape(fpfirst)), fp[0]))
     res.instance(R3, "sorter split: particle ranges", facts.loc(calls["setFirstParticle"][0]), " / ".join(fp))
     if not okp:
         res.violation(R3, tbf.rel(facts.path_of(calls["setFirstParticle"][0])), fn["qname"], "split-particles", calls["setFirstParticle"][0]["l"][1],
